@@ -3,9 +3,11 @@
 N (national rule): per country of the 22, BBAN(cc, b).validate_national_checksum() runs on a symbolic BBAN b ranging
    over all structure-conforming BBANs; "returns True" / "raises" is proved equivalent to the reference rule
    (spec/national.py); success must be reported as True, failure by raising a library error.
-I (integration): per country (the 22 and others), IBAN(w), IBAN(w, validate_bban=True) and
-   bban.validate_national_checksum() run in one path on a symbolic w: national validation accepts iff plain
-   validation accepts and the BBAN-level check succeeds; for countries without a national algorithm it changes nothing."""
+I (integration): per country (the 22 and others), IBAN(w), IBAN(w, validate_bban=True), validate(validate_bban=True)
+   and bban.validate_national_checksum() run in one path on a symbolic w, with the country's algorithm object replaced
+   by a stand-in whose verdict is one free symbolic Boolean (its real body is decided in N): national validation
+   accepts iff plain validation accepts and the algorithm's verdict is true, the algorithm is consulted, and for
+   countries without a national algorithm nothing changes."""
 import random
 
 import z3
@@ -60,10 +62,19 @@ def prepare(tier, seed):
 _SEGS = {}
 
 
+def _char_lookup(src, tab):
+    """value of a character under a char -> small int table, in the canonical form the engine's own models produce for
+    'look the character up in a str -> str table, then int()': code-point table first, digit value second"""
+    e = rt.prune_ite(rt.seg_lookup(src.term, _segs(tab)))
+    r = rt.models.model_int(rt.mkstr([e]))
+    return r.e if isinstance(r, rt.SymInt) else z3.IntVal(r)
+
+
+
 def _segs(tab):
     k = id(tab)
     if k not in _SEGS:
-        _SEGS[k] = rt.segments({ord(c): v for c, v in tab.items()})
+        _SEGS[k] = rt.segments({ord(c): 48 + v for c, v in tab.items()})
     return _SEGS[k]
 
 
@@ -91,7 +102,7 @@ def zbool(x):
 
 def run_job(job, res):
     national.NUMERIC = H.spec_numeric
-    national.CHAR_LOOKUP = lambda src, tab: z3.simplify(rt.prune_ite(rt.seg_lookup(src.term, _segs(tab))))
+    national.CHAR_LOOKUP = _char_lookup
     national.LIST_LOOKUP = lambda lst, idx: rt.zi(rt.getitem(lst, rt.SymInt(idx)))
     if job["kind"] == "N":
         if "pats" in job:
@@ -162,12 +173,36 @@ def run_integration(cc, res):
         _run_integration(cc, res, mode)
 
 
+class Verdict:
+    """stand-in for a country's algorithm object in the integration harness: the national rule itself is decided in
+    the N jobs; here its verdict is one free symbolic Boolean per path"""
+
+    def __init__(self, real):
+        self.real = real
+        self.accepts = real.accepts
+        self.name = getattr(real, "name", "default")
+        self.v = None
+        self.calls = 0
+
+    def validate(self, components, expected):
+        self.calls += 1
+        if self.v is None:
+            self.v = rt.fresh_bool("national_verdict")
+        return SymBool(self.v)
+
+    def compute(self, components):
+        raise rt.Unmodelled("compute() reached in the integration harness")
+
+
 def _run_integration(cc, res, mode):
+    from schwifty import checksum
     from sx.values import Dec
 
     cls = table.classes(cc)
     has_algo = cc in national.COUNTRIES
     holder, seen = {}, set()
+    real_algo = checksum.algorithms.get(f"{cc}:default")
+    stub = Verdict(real_algo) if real_algo is not None else None
 
     def fn():
         from schwifty import IBAN
@@ -177,6 +212,8 @@ def _run_integration(cc, res, mode):
             a0, _ = table.positions(cc)["account_code"]
             for i in range(12):  # integration does not depend on the kinds; keep the account numeric here
                 ctx.add(b[a0 + i].guards[0])
+        if stub is not None:
+            stub.v, stub.calls = None, 0
         X = H.spec_numeric(b + [ord(cc[0]), ord(cc[1])])
         v = 98 - (X * 100) % 97
         if mode == "valid":
@@ -226,6 +263,8 @@ def _run_integration(cc, res, mode):
                 bad = "iban.validate(validate_bban=True) disagrees with the constructor"
             elif not has_algo and (not ok2 or ok1 != ok0):
                 bad = "national validation changes the verdict for a country without a national algorithm"
+            elif has_algo and ok0 and stub.calls == 0:
+                bad = "the country's national algorithm was not consulted"
             elif ok2 and r2[1] is not True:
                 bad = f"BBAN-level success reported as {r2[1]!r}"
             elif not ok1 and not isinstance(r1[1], SchwiftyException):
@@ -247,4 +286,10 @@ def _run_integration(cc, res, mode):
             cps = text(ctx.model())
             res["witnesses"].append({"property": "C06", "what": f"{cc} validate_bban {kind}", "call": H.iban_call(cps, validate_bban=True), "mode": "witness", "engine": H.outcome_of(r1)})
 
-    rt.explore(fn, on_path)
+    if stub is not None:
+        checksum.algorithms[f"{cc}:default"] = stub
+    try:
+        rt.explore(fn, on_path)
+    finally:
+        if stub is not None:
+            checksum.algorithms[f"{cc}:default"] = real_algo
